@@ -827,12 +827,18 @@ static bool run_case_inner(std::string const& op_in, Toks& in, Out& impl, Out& r
 static constexpr int MOVED = -999;
 static long g_massign  = 0;
 static long g_selfmove = 0;
+static long g_copies   = 0;   // [alg.*]: the in-place algorithms require only move-constructible / move-assignable / swappable elements
 struct Mv {
     int v{0};
     Mv() = default;
     explicit Mv(int x) : v{x} { }
-    Mv(Mv const&)                    = default;
-    auto operator=(Mv const&) -> Mv& = default;
+    Mv(Mv const& o) : v{o.v} { ++g_copies; }
+    auto operator=(Mv const& o) -> Mv&
+    {
+        ++g_copies;
+        v = o.v;
+        return *this;
+    }
     Mv(Mv&& o) noexcept : v{o.v} { o.v = MOVED; }
     auto operator=(Mv&& o) noexcept -> Mv&
     {
@@ -855,6 +861,7 @@ struct MBuf {
         for (std::size_t i = 0; i < n; ++i) { st[i + 1].v = v[i]; }
         g_massign  = 0;
         g_selfmove = 0;
+        g_copies   = 0;
     }
     Mv* b() { return st.data() + 1; }
     Mv* e() { return st.data() + 1 + n; }
@@ -877,6 +884,7 @@ static void mv_tail(Out& o, MBuf const& a, bool count)
     if (!a.guards_ok()) { o.tok("GUARD-HIT"); }
     if (count) { o.tok("A").num(g_massign); }
     if (g_selfmove != 0) { o.tok("SELF-MOVE").num(g_selfmove); }
+    if (g_copies != 0) { o.tok("COPIED").num(g_copies); }
 }
 
 static bool run_case_mv(std::string op, Toks& in, Out& impl, Out& ref)
